@@ -46,11 +46,13 @@ def cases(tier, seed):
                 # line numbers avoid 0 here (a line numbered 0 is a known finding decided by C08)
                 kw = {'holes': conv.pick_holes(rng, nI, nX), 'il': [rng.choice([1, 5, 100, -500]), rng.choice([1, 2])],
                       'xl': [rng.choice([1, 20, -700]), rng.choice([1, 3])]}
+            if geom == '3d' and i % 3 == 2:
+                kw['sorting'] = 1        # crossline-sorted regular file
             src = conv.src_desc(rng, geom, (nI, nX, rng.choice([4, 9, 20])), hdr=hdr, valkind='smooth', **kw)
         for mode in (MODES if tier != 'quick' else [MODES[i % 4], MODES[(i + 1) % 4]]):
             out.append({'id': 'segy:%d:%s:%s' % (i, geom, mode), 'kind': 'segy', 'src': src, 'mode': mode, 'reduce_iops': rng.random() < 0.25,
                         'rate': rng.choice([4, 8, 2]), 'cost': 2})
-    # pinned witness of a listed known finding: crossline-sorted regular source
+    # regression witness of a fixed defect: crossline-sorted regular source
     out.append({'id': 'witness:crossline-sorted', 'kind': 'segy', 'mode': 'thorough', 'reduce_iops': False, 'rate': 4, 'cost': 1,
                 'src': {'geom': '3d', 'shape': [5, 6, 7], 'il': [1, 1], 'xl': [10, 2], 'dt': 4000, 't0': 0, 'fmt': 5, 'ext': 0, 'cubeseed': 3, 'valkind': 'smooth',
                         'hdr': {'seed': 9, 'nfields': 2, 'inside': True}, 'sorting': 1}})
@@ -93,6 +95,11 @@ def run_segy(case, ctx):
     strata.add('precondition:' + ('inside' if inside else 'outside'))
     if mode == 'strip':
         want_of = lambda t: {k: 0 for k in KEYS}    # noqa
+    elif geom == '3d' and case['src'].get('sorting', 2) != 2:
+        # crossline-sorted regular source: trace t of the SGZ is grid position (t // nX, t % nX) (that is what get_trace(t) decodes);
+        # its header is that of the source trace at the same (inline, crossline), i.e. file index (t % nX) * nI + t // nX
+        nI_, nX_ = case['src']['shape'][:2]
+        want_of = lambda t: {k: H[k][(t % nX_) * nI_ + t // nX_] for k in KEYS}   # noqa
     else:
         want_of = lambda t: {k: H[k][t] for k in KEYS}   # noqa
     required = mode in ('thorough', 'exhaustive', 'strip') or inside
@@ -152,9 +159,8 @@ def run_segy(case, ctx):
                         bad.append({'sig': 'varying-field-not-stored', 'detail': 'field %d varies in the source but is not stored (mode %s)' % (k, mode)})
                         break
     if case['src'].get('sorting', 2) != 2:
-        strata.add('known:crossline-sorted-source')
-        if bad:
-            bad = [{'sig': 'crossline-sorted-source:header-arrays-in-file-order-on-inline-major-grid', 'detail': '; '.join(sorted(set(v['sig'] for v in bad)))}]
+        strata.add('sorting:crossline')
+        bad = [dict(v, sig='crossline-sorted:' + v['sig']) for v in bad]
     return {'violations': bad, 'counters': {'headers_compared': compared, 'files': 1, 'required_exact': int(required)}, 'strata': sorted(strata),
             'key': '%s|%s|%s|%s' % (geom, mode, n, sorted(src.get('hdr_classes', {}).values())),
             'nontrivial': n >= 2 and compared > 0}
